@@ -8,6 +8,12 @@
 #include <fcppt/array/map.hpp>
 #include <fcppt/array/object.hpp>
 #include <fcppt/array/push_back.hpp>
+#include <fcppt/loop.hpp>
+#include <fcppt/algorithm/loop_break.hpp>
+#include <fcppt/algorithm/loop_break_tuple.hpp>
+#include <fcppt/algorithm/map.hpp>
+#include <fcppt/algorithm/map_array.hpp>
+#include <fcppt/algorithm/map_tuple.hpp>
 #include <fcppt/array/apply.hpp>
 #include <fcppt/array/make.hpp>
 #include <fcppt/tuple/apply.hpp>
@@ -416,6 +422,89 @@ std::string op_tuparr_more(std::string const &_op, line_t const &L)
   throw bad_op{};
 }
 
+// ---------------------------------------------------------------- the same array / tuple twice; algorithm::map / loop_break on them
+
+template <typename T>
+std::string op_tuparr_self(std::string const &_op, line_t const &L)
+{
+  need(L.args.size() == 1);
+  return with_n<3>(
+      L.n(0),
+      [&](auto N) -> std::string
+      {
+        constexpr std::size_t n{decltype(N)::value};
+        if (_op == "arrjoinself" || _op == "tupconcatself")
+        {
+          need(L.par.empty() && (L.cat(0) == 'l' || L.cat(0) == 'c'));
+          if constexpr (T::copyable && n <= 2)
+          {
+            if (_op == "arrjoinself")
+            {
+              auto a{mk_arr<T, n>(L.args[0])};
+              mark(a);
+              g_log.clear();
+              auto const r{L.cat(0) == 'l' ? fcppt::array::join(a, a) : fcppt::array::join(std::as_const(a), std::as_const(a))};
+              event_log const log{g_log};
+              return finish("-", arr_slots(r), {arr_slots(a)}, log);
+            }
+            auto t{mk_tup<T, n>(L.args[0])};
+            mark(t);
+            g_log.clear();
+            auto const r{L.cat(0) == 'l' ? fcppt::tuple::concat(t, t) : fcppt::tuple::concat(std::as_const(t), std::as_const(t))};
+            event_log const log{g_log};
+            return finish("-", tup_slots(r), {tup_slots(t)}, log);
+          }
+          else
+            throw bad_op{};
+        }
+        if (_op == "algmaparr")
+        {
+          need(L.par.empty());
+          auto a{mk_arr<T, n>(L.args[0])};
+          mark(a);
+          g_log.clear();
+          auto const r{with_cat<true>(L.cat(0), a, [](auto &&x) { return fcppt::algorithm::map<arr_n<T, n>>(FWD(x), thru{}); })};
+          event_log const log{g_log};
+          return finish("-", arr_slots(r), {arr_slots(a)}, log);
+        }
+        auto t{mk_tup<T, n>(L.args[0])};
+        mark(t);
+        if (_op == "algmaptup")
+        {
+          need(L.par.empty());
+          g_log.clear();
+          auto const r{with_cat<true>(L.cat(0), t, [](auto &&x) { return fcppt::algorithm::map<tup_n<T, n>>(FWD(x), thru{}); })};
+          event_log const log{g_log};
+          return finish("-", tup_slots(r), {tup_slots(t)}, log);
+        }
+        if (_op == "algloopbrktup")
+        {
+          need(L.par.size() == 1 && L.par[0] >= 0 && static_cast<std::size_t>(L.par[0]) <= n);
+          int idx{0};
+          int const k{L.par[0]};
+          g_log.clear();
+          with_cat<true>(
+              L.cat(0),
+              t,
+              [&idx, k](auto &&x)
+              {
+                fcppt::algorithm::loop_break(
+                    FWD(x),
+                    [&idx, k](auto &&e)
+                    {
+                      static_assert(std::is_lvalue_reference_v<decltype(e)>);
+                      e.read();
+                      return idx++ == k ? fcppt::loop::break_ : fcppt::loop::continue_;
+                    });
+                return 0;
+              });
+          event_log const log{g_log};
+          return finish("-", "-", {tup_slots(t)}, log);
+        }
+        throw bad_op{};
+      });
+}
+
 template <typename T>
 bool dispatch(std::string const &_op, line_t const &L, std::string &_out)
 {
@@ -438,6 +527,8 @@ bool dispatch(std::string const &_op, line_t const &L, std::string &_out)
   if (_op == "tupinvoke" || _op == "tupapply2" || _op == "arrapply2" || _op == "tupfromarr" || _op == "tupmake2" || _op == "arrmake2" ||
       _op == "tupinit" || _op == "arrinit")
     return (_out = op_tuparr_more<T>(_op, L), true);
+  if (_op == "arrjoinself" || _op == "tupconcatself" || _op == "algmaparr" || _op == "algmaptup" || _op == "algloopbrktup")
+    return (_out = op_tuparr_self<T>(_op, L), true);
   return false;
 }
 }
